@@ -152,6 +152,15 @@ def make_config(rng):
       shared_set = {7, 8}
       for n, k in rng.sample(slots, 2):
         n.kw[k] = gen.Leaf(shared_set)
+  if rng.random() < 0.1:
+    # members of two different mixin enums that are == (and hash-equal) in ONE configuration
+    slots = [(n, k) for n in gen.walk(root) if isinstance(n, gen.B) and n.btype != 'TaggedValue'
+             for k, c in n.kw.items() if isinstance(c, gen.Leaf) and k != 'uid']
+    if len(slots) >= 2:
+      pair = rng.choice([(kinds.StrA.NONE, kinds.StrB.NONE), (kinds.Level.LOW, kinds.Rank.FIRST),
+                         (kinds.Rank.SECOND, kinds.Level.HIGH)])
+      for (n, k), v in zip(rng.sample(slots, 2), pair):
+        n.kw[k] = gen.Leaf(v)
   if rng.random() < 0.04:
     # a functools.partial as a leaf value (a supported value of the expression converter)
     slots = [(n, k) for n in gen.walk(root) if isinstance(n, gen.B) and n.btype != 'TaggedValue'
